@@ -262,7 +262,7 @@ def check_deletions(ctx, rule: str) -> None:
     bad = None
     m_n = 0
     for fname, kind in (("find_essential_reactions", "reaction"), ("find_essential_genes", "gene")):
-        for threshold, neutral in ((None, True), (0.3, True), (0.0, True), (None, False), (1.5, True)):   # 1.5: above the wild-type optimum - every entity is essential
+        for threshold, neutral, stale in ((None, True, False), (0.3, True, False), (0.0, True, False), (None, False, False), (1.5, True, False), (0.3, True, True), (None, True, True), (0.0, False, True)):   # 1.5: above the wild-type optimum - every entity is essential
             # `neutral=False`: a fully reduced network - no single deletion leaves the growth untouched
             saved = dict(GROWTH)
             if not neutral:
@@ -271,9 +271,15 @@ def check_deletions(ctx, rule: str) -> None:
                 GROWTH[frozenset({"R1", "R2"})] = 0.2
             try:
                 model = _model()
+                if stale:
+                    # the solver still holds the (optimal) solution of an earlier optimisation under other conditions,
+                    # in which nothing carried flux: what the model's reactions report as their flux says nothing
+                    # about the problem that is asked about now
+                    model.last_fluxes = {r.id: 0.0 for r in model.reactions}
+                    model.solver.status = "optimal"
                 it = _interp(ctx)
                 fn = prog.func("cobra.flux_analysis.variability", fname)
-                what = f"{fname}(threshold={threshold})" + ("" if neutral else " on a network without a neutral deletion")
+                what = f"{fname}(threshold={threshold})" + ("" if neutral else " on a network without a neutral deletion") + (" on a model whose solver holds the solution of an earlier optimisation" if stale else "")
                 try:
                     out = _run(what, lambda: it.call(fn, [model], {"threshold": threshold, "processes": 1}))
                 except EvalRaise as exc:
